@@ -558,7 +558,12 @@ class Switch:
         else:
             ty = None
             if pl is not None:
-                ty = g.b.ty(g.b.locals[pl["l"]]["ty"])["s"] if not pl["p"] else None
+                if not pl["p"]:
+                    ty = g.b.ty(g.b.locals[pl["l"]]["ty"])["s"]
+                else:
+                    last = pl["p"][-1]
+                    if isinstance(last, dict) and "t" in last:
+                        ty = g.b.ty(last["t"])["s"]
             if ty == "bool" or (set(tv.keys()) == {"0"} and ty in (None, "bool")):
                 self.kind = "bool"
                 self.variants = {"false": tv.get("0"), "true": t["otherwise"]}
